@@ -6,6 +6,7 @@ import (
 	"fmt"
 	"runtime/pprof"
 	"strings"
+	"sync"
 	"time"
 )
 
@@ -418,6 +419,109 @@ func scenConnEndBlocked() *connRun {
 	return r
 }
 
+// connend-handoff: the connection ends while a streaming handler is handing its channel over to the forwarding
+// goroutine and that goroutine is busy (it waits for the write lock behind a response stuck in a socket write, the peer
+// having stopped reading). The handler's goroutine, like every other one of the connection, must be gone afterwards.
+func scenConnEndHandoff(cause string) *connRun {
+	e := newConnEnv(connOpts{noReconnect: true})
+	params := map[string]interface{}{"cause": cause + "-with-channel-registration-pending"}
+	e.watchCtx = true
+	gate := make(chan struct{})
+	var gateOnce sync.Once
+	defer gateOnce.Do(func() { close(gate) })
+	e.nextTok++
+	x := int(e.nextTok)
+	e.prodGate = func(token, i int) {
+		if token == x && i == 1 {
+			<-gate
+		}
+	}
+	ctxX, cancelX := context.WithCancel(context.Background())
+	defer cancelX()
+	e.tr.ev("call.issue", x, "sub")
+	chX, err := e.cl.Sub(ctxX, x, 3)
+	if err == nil {
+		go func() {
+			for v := range chX {
+				e.tr.ev("cons.recv", x, v)
+			}
+			e.tr.ev("cons.closed", x)
+		}()
+	}
+	e.tr.ev("call.return", x, "ok")
+	e.waitEv(2*time.Second, func(ev tev) bool { return ev.Point == "cons.recv" && fmt.Sprint(ev.Args[0]) == fmt.Sprint(x) })
+	pc := e.proxy.current()
+	pc.mu.Lock()
+	pc.stallS2C = true
+	pc.mu.Unlock()
+	nw := countPoint(e, "nw.acquired")
+	e.call("big", context.Background(), 24<<20) // its response blocks in the server's socket write, holding the write lock
+	for dl := time.Now().Add(3 * time.Second); countPoint(e, "nw.acquired") == nw && time.Now().Before(dl); {
+		time.Sleep(2 * time.Millisecond)
+	}
+	time.Sleep(60 * time.Millisecond)
+	gateOnce.Do(func() { close(gate) })
+	// the forwarder has taken the next value of X and now waits for the write lock
+	busy := e.waitEv(2*time.Second, func(ev tev) bool {
+		return ev.Point == "prod.send" && fmt.Sprint(ev.Args[0]) == fmt.Sprint(x) && fmt.Sprint(ev.Args[1]) == fmt.Sprint(x*1000+1)
+	})
+	params["forwarder_busy"] = busy
+	e.nextTok++
+	y := int(e.nextTok)
+	ctxY, cancelY := context.WithCancel(context.Background())
+	defer cancelY()
+	e.tr.ev("call.issue", y, "sub")
+	go func() {
+		ch, err := e.cl.Sub(ctxY, y, 1)
+		out := "ok"
+		if err != nil {
+			out, _ = classify(y, 0, err)
+		} else {
+			go func() {
+				for range ch {
+				}
+			}()
+		}
+		e.tr.ev("call.return", y, out)
+	}()
+	handed := e.waitEv(2*time.Second, evIs("h.end", y))
+	params["second_handler_returned_its_channel"] = handed
+	time.Sleep(30 * time.Millisecond)
+	before := labelledGoroutines("wsserver")
+	switch cause {
+	case "fin":
+		pc.kill(faultFIN)
+	case "rst":
+		pc.kill(faultRST)
+	}
+	okX := e.waitEv(3*time.Second, evIs("h.ctxwatch", x))
+	e.waitCalls(3 * time.Second)
+	leaked := -1
+	var dump string
+	for i := 0; i < 300; i++ {
+		leaked = labelledGoroutines("wsserver")
+		if leaked == 0 {
+			break
+		}
+		time.Sleep(5 * time.Millisecond)
+	}
+	if leaked > 0 {
+		dump = labelledDump("wsserver")
+	}
+	params["goroutines_before"] = before
+	params["goroutines_after"] = leaked
+	r := e.finish("connend", params)
+	if r.Oracle == "" {
+		switch {
+		case !okX:
+			r.Oracle = "the context of the streaming handler was not cancelled when the connection ended (" + cause + ", a registration pending)"
+		case leaked > 0:
+			r.Oracle = fmt.Sprintf("%d library goroutine(s) labelled for the dead connection are still alive 1.5s after it ended (a streaming handler was handing over its channel while the forwarder was busy): %s", leaked, dump)
+		}
+	}
+	return r
+}
+
 func labelledGoroutines(mode string) int {
 	var b bytes.Buffer
 	_ = pprof.Lookup("goroutine").WriteTo(&b, 1)
@@ -498,6 +602,8 @@ func init() {
 				}
 			}
 			emit(scenConnEndBlocked())
+			emit(scenConnEndHandoff("rst"))
+			emit(scenConnEndHandoff("fin"))
 		}
 	})
 }
